@@ -430,6 +430,23 @@ func sortOf(t types.Type) Sort {
 	return "Int"
 }
 
+// constArray renders the array that maps every index to v. Solvers accept (as const ..) only for values of
+// interpreted sorts; for uninterpreted constants (zero of a type parameter, the empty string) a named array with a
+// defining axiom is used instead.
+func (d *Decls) constArray(idxSort, elemSort Sort, v Term) Term {
+	switch {
+	case elemSort == "Int" || elemSort == "Bool" || elemSort == "Real":
+		return fmt.Sprintf("((as const (Array %s %s)) %s)", idxSort, elemSort, v)
+	case v == "iface_nil" || v == "(mk_slice 0 0 0)" || strings.HasPrefix(v, "((as const"):
+		return fmt.Sprintf("((as const (Array %s %s)) %s)", idxSort, elemSort, v)
+	}
+	name := "constarr_" + sortID(idxSort) + "_" + sortID(elemSort) + "_" + sanitize(v)
+	arrSort := fmt.Sprintf("(Array %s %s)", idxSort, elemSort)
+	d.declConst(name, arrSort)
+	d.axiom(fmt.Sprintf("(forall ((ci %s)) (! (= (select %s ci) %s) :pattern ((select %s ci))))", idxSort, name, v, name))
+	return name
+}
+
 func zeroOf(s Sort, d *Decls) Term {
 	switch s {
 	case "Int":
